@@ -2,6 +2,7 @@
 what the statement says (WalkModel.tla is the oracle)."""
 import collections
 import json
+import re
 
 import vlib
 
@@ -9,6 +10,7 @@ PID = "C06"
 MODULE = "walk/MCWalkModel"
 DRIVER = "replay_walk"
 THREADS = [1, 2, 4, 16]
+NPROC = 24      # driver processes (the parallel walker mostly sleeps while it terminates)
 
 META = {
     "text": ("WalkModel.tla defines, for a tree of files/directories/symlinks (to a file, a directory, an ancestor = cycle, "
@@ -16,7 +18,7 @@ META = {
              "filter rejecting one name, a custom ignore file naming one entry, 1-2 roots incl. file and symlink roots), the "
              "set of (path, depth, is-error) entries a traversal must report. TLC (a) checks at design level that the "
              "transcribed skipping decisions of the serial walker (walkdir handle_entry + Walk::skip_entry/next) and of the "
-             "parallel walker (generate_work + run_one) are equal and conform to the statement on all 192 entry shapes x 16 "
+             "parallel walker (generate_work + run_one) are equal and conform to the statement on all 288 entry shapes x 16 "
              "flag combinations, and that the pinned serial order (size verdict returned before the entry filter) is NOT; "
              "(b) generates every tree/roots/options scenario within the bounds together with the expected entries. Every "
              "scenario is materialised on disk (second device: /dev/shm) and walked by WalkBuilder::build() and by "
@@ -30,15 +32,21 @@ META = {
 }
 
 # Discrepancies between ripgrep and the property that are awaiting a decision (repair or known finding).
-_WHAT = ("serial walker: with max_filesize set, Walk::skip_entry returns the size verdict for a non-directory before consulting "
-         "filter_entry, so a file rejected by the entry filter is still reported; the parallel walker applies both")
-PENDING_FINDINGS = [
-    {"match": {"clause": "vs_expected", "threads": 0, "size_and_filter": True, "serial_matches_kf_model": True},
-     "what": _WHAT},
-    {"match": {"clause": "serial_vs_parallel", "size_and_filter": True, "serial_matches_kf_model": True,
-               "parallel_as_expected": True},
-     "what": _WHAT},
-]
+# serial_extra / serial_missing say how the single-threaded walker's result differs from the expected multiset and
+# whether WalkModel's named deviations of the pinned serial walker (SerialDecision with kf = TRUE) predict exactly that.
+_WHAT1 = ("serial walker: with max_filesize set, Walk::skip_entry returns the size verdict for a non-directory before consulting "
+          "filter_entry, so a file rejected by the entry filter is still reported; the parallel walker applies both")
+_WHAT2 = ("serial walker: with same_file_system set, an ignored/filtered directory on another device is answered with "
+          "walkdir's skip_current_dir() although walkdir never entered it, which pops the PARENT directory: the remaining "
+          "entries of the parent are not reported; the parallel walker reports them")
+_WHAT3 = "serial walker: both of the above in one walk"
+PENDING_FINDINGS = []
+for _extra, _missing, _what in (("kf_model", "none", _WHAT1), ("none", "unpushed_skip_model", _WHAT2),
+                                ("kf_model", "unpushed_skip_model", _WHAT3)):
+    PENDING_FINDINGS.append({"match": {"clause": ["vs_expected", "loop"], "threads": 0, "serial_extra": _extra,
+                                       "serial_missing": _missing}, "what": _what})
+    PENDING_FINDINGS.append({"match": {"clause": "serial_vs_parallel", "parallel_as_expected": True,
+                                       "serial_extra": _extra, "serial_missing": _missing}, "what": _what})
 
 OPT_NAMES = [("md", "max_depth"), ("fs", "max_filesize"), ("fl", "follow_links"), ("sfs", "same_file_system"),
              ("filt", "filter"), ("ignd", "ignore")]
@@ -88,7 +96,7 @@ def opts_set(o):
 
 def case_of(o):
     return {"md": -1 if o["md"] == 99 else o["md"], "fs": o["fs"], "fl": o["fl"], "sfs": o["sfs"],
-            "filt": o["filt"], "ignd": o["ignd"], "ignt": o["ignt"]}
+            "filt": o["filt"], "ignd": o["ignd"], "ignt": o["ignt"], "igndir": o.get("igndir", False)}
 
 
 # ---------------------------------------------------------------------------
@@ -100,12 +108,13 @@ def judge_case(rec, obs):
     tree, roots, o = rec["t"], rec["r"], rec["o"]
     must = collections.Counter(render(tree, roots, e) for e in rec["must"])
     may = collections.Counter(render(tree, roots, e) for e in rec["may"])
-    kf = collections.Counter(render(tree, roots, e) for e in rec["kf"]) if rec.get("kfdiff") else None
+    kf = collections.Counter(render(tree, roots, e) for e in rec["kf"]) if rec.get("kfdiff") else collections.Counter()
+    lose = collections.Counter(render(tree, roots, e) for e in rec.get("lose", []))
     names = opts_set(o)
-    base = {"opts": names, "size_and_filter": bool(o["fs"] and o["filt"])}
+    base = {"opts": names}
     out = []
     if "hang_after" in obs:
-        sig = dict(base, clause="loop", threads=-1, serial_matches_kf_model=False)
+        sig = dict(base, clause="loop", threads=-1, serial_extra="other", serial_missing="other")
         return [(sig, "a traversal did not end within the time limit (after run %s)" % obs["hang_after"])]
     runs = [(0, "serial", obs["serial"])]
     for n, r in sorted(obs.get("par", {}).items(), key=lambda kv: int(kv[0])):
@@ -116,8 +125,22 @@ def judge_case(rec, obs):
     for n, label, r in runs:
         cnt[label] = collections.Counter(obs_key(e) for e in r["ent"])
     ser = cnt["serial"]
-    ser_kf = kf is not None and ser == kf
-    base["serial_matches_kf_model"] = bool(ser_kf)
+    kf_extra = kf - must
+    ser_bad = bool(obs["serial"].get("panic") or obs["serial"].get("runaway"))
+
+    def classify(extra, missing):
+        """How the serial result deviates (from the expectation or from a parallel run), and whether the spec's named
+        deviations of the pinned serial walker (SerialDecision with kf = TRUE) explain it: extra entries must be among
+        those the size-before-filter transcription adds (max_filesize and a filter set), missing entries among those the
+        skip_current_dir-on-an-unpushed-directory transcription can lose (same_file_system set)."""
+        if ser_bad:
+            return {"serial_extra": "other", "serial_missing": "other"}
+        e = ("none" if not extra else
+             "kf_model" if (o["fs"] and o["filt"] and not (extra - kf_extra) and (lose or ser == kf)) else "other")
+        m = ("none" if not missing else
+             "unpushed_skip_model" if (o["sfs"] and not (missing - lose)) else "other")
+        return {"serial_extra": e, "serial_missing": m}
+
     seen = set()
 
     def add(clause, n, why, extra=None):
@@ -125,8 +148,7 @@ def judge_case(rec, obs):
             return
         seen.add((clause, n == 0))
         sig = dict(base, clause=clause, threads=n)
-        if extra:
-            sig.update(extra)
+        sig.update(extra or classify((ser - must) - may, must - ser))
         out.append((sig, why))
 
     as_expected = {}
@@ -157,14 +179,14 @@ def judge_case(rec, obs):
         if cnt[label] != ser:
             add("serial_vs_parallel", n, "serial and %s differ: only serial %s, only parallel %s" % (
                 label, sorted(map(str, ser - cnt[label]))[:4], sorted(map(str, cnt[label] - ser))[:4]),
-                {"parallel_as_expected": bool(as_expected.get(label))})
+                dict(classify(ser - cnt[label], cnt[label] - ser), parallel_as_expected=bool(as_expected.get(label))))
     return out
 
 
 # ---------------------------------------------------------------------------
 # driving
 
-def make_jobs(recs, perturb_every=1):
+def make_jobs(recs, perturb_every=1, t16_every=1):
     """Group the emitted scenarios by (tree, roots) so that a tree is materialised once."""
     groups = collections.OrderedDict()
     for i, r in enumerate(recs):
@@ -178,7 +200,7 @@ def make_jobs(recs, perturb_every=1):
             part = idx[s:s + 64]
             jobs.append({"id": len(jobs), "nodes": r0["t"], "roots": r0["r"],
                          "cases": [case_of(recs[i]["o"]) for i in part],
-                         "threads": THREADS,
+                         "threads": THREADS if (gi % t16_every == 0) else [t for t in THREADS if t < 16],
                          "perturb": [4] if (gi % perturb_every == 0) else [],
                          "seed": vlib.seed(), "_idx": part})
     return jobs
@@ -192,7 +214,7 @@ def run_jobs(jobs, timeout=1500):
         if not todo:
             break
         send = [{k: v for k, v in j.items() if not k.startswith("_")} for j in todo]
-        outs = vlib.run_driver(DRIVER, send, timeout=timeout, parallel=12)
+        outs = vlib.run_driver(DRIVER, send, timeout=timeout, parallel=NPROC)
         nxt = []
         progressed = False
         for j, o in zip(todo, outs):
@@ -266,8 +288,12 @@ def categories(rec):
         c.append("empty_dir")
     if o["fs"] and o["filt"]:
         c.append("size_and_filter")
+    if o.get("igndir"):
+        c.append("dir_only_ignore_rule")
     if rec.get("kfdiff"):
-        c.append("kf_model_predicts_serial_deviation")
+        c.append("kf_model_predicts_serial_extra_entries")
+    if rec.get("lose"):
+        c.append("kf_model_predicts_possible_serial_loss")
     if rec.get("pruned"):
         c.append("options_prune_entries")
     depth = max(len(e["p"]) for e in rec["must"]) - 1
@@ -287,15 +313,25 @@ def nontrivial_key(rec):
     return json.dumps([rec["t"], rec["r"], rec["o"]], sort_keys=True)
 
 
-def explore(chk, st, cfg, simulate=None, depth=None, timeout=900, perturb_every=1, workers=12):
-    res = vlib.tlc(MODULE, cfg, workers=workers, timeout=timeout, simulate=simulate, depth=depth,
-                   tlc_seed=(vlib.seed() + 1 if simulate else None))
+def run_tlc(cfg, simulate=None, depth=None, timeout=900, workers=12, **_):
+    return vlib.tlc(MODULE, cfg, workers=workers, timeout=timeout, simulate=simulate, depth=depth,
+                    tlc_seed=(vlib.seed() + 1 if simulate else None))
+
+
+def explore(chk, st, cfg, simulate=None, depth=None, timeout=900, perturb_every=1, t16_every=1, workers=12, res=None):
+    if res is None:
+        res = run_tlc(cfg, simulate=simulate, depth=depth, timeout=timeout, workers=workers)
     if res.rc != 0:
         raise vlib.ToolError("WalkModel: the repaired design does not satisfy the statement in %s (spec error):\n%s"
                              % (cfg, res.tail(60)))
     chk.add_tlc(res)
     recs = res.emits()
     if simulate:
+        # the simulator reports no distinct-state count; every checked state is one evaluation of the invariants
+        m = re.search(r"The number of states generated: (\d+)", res.out)
+        if m:
+            chk.states += int(m.group(1))
+            chk.transitions += int(m.group(1))
         # simulation may pick the same scenario twice
         uniq = collections.OrderedDict()
         for r in recs:
@@ -303,7 +339,7 @@ def explore(chk, st, cfg, simulate=None, depth=None, timeout=900, perturb_every=
         recs = list(uniq.values())
     if not recs:
         raise vlib.ToolError("TLC emitted no scenario for %s:\n%s" % (cfg, res.tail(30)))
-    jobs = make_jobs(recs, perturb_every)
+    jobs = make_jobs(recs, perturb_every, t16_every)
     vlib.log("[%s] %s: %d states, %d scenarios (%d trees/roots) in %.1fs" % (
         PID, cfg, res.distinct, len(recs), len(jobs), res.wall))
     obs = run_jobs(jobs, timeout=timeout)
@@ -347,42 +383,59 @@ def design(chk, st):
     mut = vlib.tlc(MODULE, "WalkDesign_kf", workers=2, timeout=300)
     chk.add_tlc(mut)
     if mut.rc != 12:
-        raise vlib.ToolError("the design invariant does not reject the size-before-filter order (rc=%d)" % mut.rc)
-    other = [x for x in d["cex_kf"] if not (x["f"]["fs"] and x["f"]["filt"] and x["a"]["named"])]
+        raise vlib.ToolError("the design invariant does not reject the pinned serial walker's deviations (rc=%d)" % mut.rc)
+    size = [x for x in d["cex_kf"] if x["f"]["fs"] and x["f"]["filt"] and x["a"]["named"]]
+    cut = [x for x in d["cex_kf"] if x["cut"] and x["f"]["sfs"] and x["a"]["xdev"]]
+    other = [x for x in d["cex_kf"] if x not in size and x not in cut]
     if other:
-        raise vlib.ToolError("design counterexamples of the pinned order outside max_filesize+filter: %r" % other[:2])
+        raise vlib.ToolError("design counterexamples of the pinned serial walker outside the two named deviations: %r"
+                             % other[:2])
     chk.extra["design_combinations"] = d["combos"]
-    chk.extra["design_counterexamples_pinned_serial_order"] = len(d["cex_kf"])
+    chk.extra["design_counterexamples_pinned_serial"] = {"size_verdict_before_filter": len(size),
+                                                         "parent_cut_by_skip_current_dir": len(cut),
+                                                         "total": len(d["cex_kf"])}
     chk.evaluations += d["combos"]
-    vlib.log("[%s] design: %d entry-shape x flag combinations, repaired decisions agree; pinned serial order: %d "
-             "counterexamples (all with max_filesize and a filter hit)" % (PID, d["combos"], len(d["cex_kf"])))
+    vlib.log("[%s] design: %d entry-shape x flag combinations, repaired decisions agree and conform; pinned serial walker: "
+             "%d counterexamples (%d size-before-filter, %d parent cut)" % (PID, d["combos"], len(d["cex_kf"]), len(size),
+                                                                           len(cut)))
 
 
 def main(tier):
     chk = vlib.Check(PID, tier)
     st = State()
     chk.rule = ("One scenario = (tree, roots, option record) generated by TLC from WalkModel; replayed on build() and on "
-                "build_parallel() with 1/2/4/16 threads (+ a perturbed 4-thread run). Non-trivial: >= 2 options set, >= 3 "
+                "build_parallel() with 1/2/4/16 threads (+ a perturbed 4-thread run; quick tier: 16 threads on every third "
+                "tree of the two exhaustive tiny-tree sets). Non-trivial: >= 2 options set, >= 3 "
                 "expected entries, and the options change the reported set (or a cycle error is expected); distinct by "
                 "(tree, roots, options).")
     chk.assumptions = [
         "file names are unique per tree (filter and ignore rule name one node each)",
         "device 2 is /dev/shm reached through symlinks; mount points inside a tree are not modelled",
         "error entries compared by path; unreadable directories, stdin ('-') roots and sorting are out of scope",
-        "bounds: see specs/walk/C06_*.cfg; the random tier samples trees of 4-6 nodes with TLC -simulate",
+        "bounds: see specs/walk/C06_*.cfg; the random tier samples trees of 3-6 nodes (20 random option records each) with TLC -simulate",
         "TLC fingerprint collisions improbable",
     ]
     vlib.hbin(DRIVER)
-    design(chk, st)
     if tier == "quick":
-        explore(chk, st, "C06_unit", perturb_every=4)
-        explore(chk, st, "C06_small", perturb_every=4)
-        explore(chk, st, "C06_rand", simulate=6000, depth=12, perturb_every=1)
+        # (the 16-thread run costs ~10 ms of sleeping per walk: in the quick tier the two exhaustive sets of tiny
+        # trees get it on every third tree, everything else on every scenario)
+        plan = [("C06_unit", dict(perturb_every=4, t16_every=3, workers=4)),
+                ("C06_roots", dict(perturb_every=1, workers=2)),
+                ("C06_dev", dict(perturb_every=4, t16_every=3, workers=4)),
+                ("C06_rand", dict(simulate=80, depth=12, perturb_every=1, workers=4))]
     else:
-        explore(chk, st, "C06_unit", perturb_every=1)
-        explore(chk, st, "C06_small", perturb_every=2)
-        explore(chk, st, "C06_deep", perturb_every=4, timeout=1500)
-        explore(chk, st, "C06_rand", simulate=60000, depth=12, perturb_every=1, timeout=1500)
+        plan = [("C06_unit_deep", dict(perturb_every=1, workers=4)),
+                ("C06_small", dict(perturb_every=2, workers=4)),
+                ("C06_dev", dict(perturb_every=1, workers=4)),
+                ("C06_deep", dict(perturb_every=4, timeout=2400, workers=6)),
+                ("C06_rand", dict(simulate=800, depth=12, perturb_every=1, timeout=2400, workers=4))]
+    # TLC runs of later sets overlap with the replay of earlier ones (at most 12 TLC workers at a time in the quick tier)
+    import concurrent.futures as cf
+    with cf.ThreadPoolExecutor(max_workers=3) as pool:
+        futs = [(cfg, kw, pool.submit(run_tlc, cfg, **kw)) for cfg, kw in plan]
+        design(chk, st)
+        for cfg, kw, fut in futs:
+            explore(chk, st, cfg, res=fut.result(), **kw)
     chk.exhaustive = True
     chk.extra["categories"] = dict(st.cats)
     chk.extra["pending_findings_hit"] = dict(st.pending)
@@ -400,6 +453,10 @@ def replay(path):
     out = vlib.run_driver(DRIVER, [job])[0]
     o = out["cases"][0]
     bad = judge_case(scn, o)
+    # deviations that are pending / known findings are not violations
+    known = [k.get("match", {}) for k in vlib.load_known() if k.get("property") == PID and k.get("status") == "known"]
+    bad = [(s, w) for s, w in bad
+           if not any(vlib.sig_matches(m, s) for m in [pf["match"] for pf in PENDING_FINDINGS] + known)]
     print(json.dumps({"scenario": {"tree": scn["t"], "roots": scn["r"], "opts": scn["o"]},
                       "expected_must": sorted(map(str, (render(scn["t"], scn["r"], e) for e in scn["must"]))),
                       "expected_may": sorted(map(str, (render(scn["t"], scn["r"], e) for e in scn["may"]))),
